@@ -70,4 +70,40 @@ Antisymmetric == VCmp(a, b) = -VCmp(b, a)
 Transitive == (VCmp(a, b) <= 0 /\ VCmp(b, c) <= 0) => VCmp(a, c) <= 0
 EqualIffKey == (VCmp(a, b) = 0) <=> KeyEq(a, b)
 OrderLaws == Reflexive /\ Antisymmetric /\ Transitive /\ EqualIffKey
+
+\* ---- C16: Version.tla's Diff over arbitrary integers: symmetric, "none" exactly on precedence-equal versions,
+\*      and the documented shape of the answer
+\* @type: ($ver, $ver) => Str;
+Diff(x, y) ==
+  LET cc == VCmp(x, y) IN
+  IF cc = 0 THEN "none" ELSE
+  LET hi == IF cc = 1 THEN x ELSE y
+      lo == IF cc = 1 THEN y ELSE x
+      hiPre == hi.len > 0
+      loPre == lo.len > 0
+  IN IF loPre /\ ~hiPre THEN
+          (IF lo.p = 0 /\ lo.m = 0 THEN "major"
+           ELSE IF hi.p # 0 THEN "patch"
+           ELSE IF hi.m # 0 THEN "minor"
+           ELSE "major")
+     ELSE IF x.M # y.M THEN (IF hiPre THEN "premajor" ELSE "major")
+          ELSE IF x.m # y.m THEN (IF hiPre THEN "preminor" ELSE "minor")
+          ELSE IF x.p # y.p THEN (IF hiPre THEN "prepatch" ELSE "patch")
+          ELSE "prerelease"
+\* @type: ($ver) => Bool;
+NonNeg(x) == x.M >= 0 /\ x.m >= 0 /\ x.p >= 0
+DiffSymmetric == Diff(a, b) = Diff(b, a)
+DiffNoneIffEqual == (Diff(a, b) = "none") <=> (VCmp(a, b) = 0)
+\* "prerelease" is answered only when the three numbers agree, and then both sides carry a tag or the lower does
+DiffPrereleaseOnlyTags ==
+  (Diff(a, b) = "prerelease") => (a.M = b.M /\ a.m = b.m /\ a.p = b.p /\ a.len > 0 /\ b.len > 0)
+\* without tags on either side the answer is the most significant differing field
+DiffPlainReleases ==
+  (NonNeg(a) /\ NonNeg(b) /\ a.len = 0 /\ b.len = 0 /\ VCmp(a, b) # 0) =>
+     Diff(a, b) = (IF a.M # b.M THEN "major" ELSE IF a.m # b.m THEN "minor" ELSE "patch")
+\* a `pre` prefix is answered exactly when the higher version is a prerelease and a number differs
+DiffPrefix ==
+  (Diff(a, b) \in {"premajor", "preminor", "prepatch"}) =>
+     LET hi == IF VCmp(a, b) = 1 THEN a ELSE b IN hi.len > 0
+DiffLaws == DiffSymmetric /\ DiffNoneIffEqual /\ DiffPrereleaseOnlyTags /\ DiffPlainReleases /\ DiffPrefix
 =============================================================================
